@@ -173,6 +173,9 @@ func poolByName(name string, quick bool) *hist.Pool {
 	if name == "methods" {
 		return c02.MethodPool()
 	}
+	if name == "nested" {
+		return c02.NestPool()
+	}
 	return c02.PoolFor(quick)
 }
 
@@ -350,10 +353,12 @@ func run(c *mc.Ctx, r *mc.Result) {
 		runPool(c, r, "prefixes", c02.PoolFor(true), 2, 3, 40000)
 		runPool(c, r, "siblings", c02.SiblingPool(), 4, 4, 8000)
 		runPool(c, r, "methods", c02.MethodPool(), 3, 3, 20000)
+		runPool(c, r, "nested", c02.NestPool(), 4, 4, 20000)
 	} else {
 		runPool(c, r, "methods", c02.MethodPool(), 4, 4, 100000)
 		runPool(c, r, "prefixes", c02.PoolFor(true), 3, 4, 400000)
 		runPool(c, r, "siblings", c02.SiblingPool(), 6, 5, 60000)
+		runPool(c, r, "nested", c02.NestPool(), 6, 5, 60000)
 	}
 }
 
